@@ -60,6 +60,10 @@ SPEC = (
     ("call", "start_carrier_wave", "-", 0), ("call", "stop_carrier_wave", "-", 0), ("call", "load_ack", "ok", 0),
     ("get", "ack", "-", 0), ("get", "crc", "-", 0), ("get", "pa_level", "-", 0), ("call", "get_auto_retries", "-", 0),
     ("call", "address", "pipe0-1", 0),
+    # reading an attribute must not disturb what the object restores (getters refresh the driver's shadow copies)
+    ("get", "data_rate", "-", 0), ("get", "is_lna_enabled", "-", 0), ("get", "channel", "-", 0), ("get", "address_length", "-", 0),
+    ("get", "arc", "-", 0), ("get", "ard", "-", 0), ("get", "auto_ack", "-", 0), ("get", "dynamic_payloads", "-", 0),
+    ("get", "payload_length", "-", 0), ("get", "allow_ask_no_ack", "-", 0),
     # rejected / clamped inputs: what the object "last established" must not include a refused value
     ("set", "channel", ">125", 0), ("set", "channel", "<0", 0), ("set", "data_rate", "invalid", 1), ("set", "pa_level", "invalid", 0),
     ("set", "crc", ">2", 0), ("set", "address_length", ">5", 0), ("set", "ard", ">4000", 0), ("set", "arc", ">15", 0),
